@@ -115,6 +115,15 @@ def opTxn (op : String) (a : List String) (st : DrvState) : Option (DrvState × 
     match loadOnce i.cfg i.env snap ls (← natArg now) (← natArg cutoff) with
     | .error _ => pure (st, "ok refused")
     | .ok r => pure (st.setEnv id { i with env := r.env }, "ok applied")
+  | "prop.c01.load", [id, snap, lastSynced, now, cutoff] => do
+    -- (no invention: C01_content_is_written / C01_load_refines_native on this side)
+    let i ← st.getEnv id
+    if !i.cfg.native then none else
+    let snap ← parseSnap snap
+    let ls ← relTxn i lastSynced
+    match loadOnce i.cfg i.env snap ls (← natArg now) (← natArg cutoff) with
+    | .error _ => pure (st, "ok refused")
+    | .ok r => pure (st.setEnv id { i with env := r.env }, "ok applied")
   | "prop.c04.load", [id, snap, lastSynced, now, cutoff] => do
     let i ← st.getEnv id
     let snap ← parseSnap snap
